@@ -90,11 +90,16 @@ def run(case):
         vol = gcall(t.to_volume, resolution=c['resolution'])
         data = np.asarray(vol.data).copy()
     else:
-        vol = Volume(data=data.copy(), lattice=lat)
+        d0 = data.copy()
+        if case.get('layout') == 'F':
+            d0 = np.asfortranarray(d0)
+        elif case.get('layout') == 'T':
+            d0 = np.ascontiguousarray(d0.transpose(2, 1, 0)).transpose(2, 1, 0)  # a transposed view: same values, other memory order
+        vol = Volume(data=d0, lattice=lat)
     check_volume(vol, data, temp, 'first density')
     if not np.array_equal(np.asarray(vol.data), data):
         raise Violation('density-unchanged', 'get_free_energy modified the density')
-    labels = [str(dt)]
+    labels = [str(dt), 'layout-' + case.get('layout', 'C')]
     if case.get('second') is not None:
         d2 = np.array(case['second']).astype(dt)
         total = data.astype(np.float64) + d2.astype(np.float64)
@@ -131,7 +136,7 @@ def grids(draw, tier):
             v[draw(st.integers(0, n - 1))] = 1
         return np.array(v).reshape(shape).tolist()
 
-    case = {'lattice': draw(gen.lattices()), 'dtype': dtype, 'data': grid(), 'temperature': draw(st.one_of(st.floats(1.0001, 2000.0), st.sampled_from([1.5, 300.0, 2000.0])))}
+    case = {'lattice': draw(gen.lattices()), 'dtype': dtype, 'layout': draw(st.sampled_from(['C', 'C', 'F', 'T'])), 'data': grid(), 'temperature': draw(st.one_of(st.floats(1.0001, 2000.0), st.sampled_from([1.5, 300.0, 2000.0])))}
     if draw(st.booleans()):
         case['second'] = grid()
         case['second_mode'] = draw(st.sampled_from(['assign', 'accumulate']))
